@@ -24,6 +24,7 @@ ASSUMPTIONS = [
 ]
 DECIDING = ["histories", "static_checks", "run_checks"]
 THOROUGH_SHARDS = 12
+REPLAY_BY_SEED = True  # histories are regenerated from the seed; see main.py
 
 TYPES = [int, str, float, bytes, list, dict, tuple, set]
 
